@@ -60,6 +60,8 @@ class FakeBrokerClient:
 
         await asyncio.sleep(0)
         self.exited = True
+        if self.disconnect_fault == "oserror":
+            raise OSError(32, "Broken pipe")
         if self.disconnect_fault:
             raise MqttError("disconnect failed")
 
@@ -103,5 +105,6 @@ def make_client(connect_fault=False, disconnect_fault=False, in_prefix="mygatewa
     mqtt.AsyncioClient = factory
     tr = mqtt.MQTTClient("broker", in_prefix=in_prefix, out_prefix=out_prefix)
     tr.fake = fake
-    tr.is_down = lambda: tr._client is None and tr._incoming_task is None
+    # "disconnected" = the broker client was exited and the receive task is gone
+    tr.is_down = lambda: (fake.exited or not fake.entered) and (tr._incoming_task is None or tr._incoming_task.done())
     return tr, restore
